@@ -467,9 +467,13 @@ func queryParamsAndBatchIds(run *ev.Run, rng *rand.Rand) {
 		}
 		check("string", func(order []int) (string, string, error) {
 			set := batchkeyset.NewBatchKeySet[string]()
-			for _, i := range order {
+			for n, i := range order {
 				if err := set.AddKey(skeys[i]); err != nil {
 					return "", "", err
+				}
+				if order[0]%2 == 0 && (n == 0 || n == len(order)/2) {
+					// a set that was already encoded (a request built, then more keys added for the next one)
+					_, _ = set.EncodeQueryParams()
 				}
 			}
 			a, err := set.EncodeQueryParams()
@@ -486,9 +490,12 @@ func queryParamsAndBatchIds(run *ev.Run, rng *rand.Rand) {
 		if len(ckeys) == k {
 			check("complexkey", func(order []int) (string, string, error) {
 				set := batchkeyset.NewBatchKeySet[*kst.CK]()
-				for _, i := range order {
+				for n, i := range order {
 					if err := set.AddKey(ckeys[i]); err != nil {
 						return "", "", err
+					}
+					if order[0]%2 == 1 && (n == 0 || n == len(order)/2) {
+						_, _ = restlicodec.BuildQueryParams(func(w func(string) restlicodec.Writer) error { return set.Encode(w) })
 					}
 				}
 				a, err := set.EncodeQueryParams()
